@@ -115,9 +115,9 @@ class A@@(Schema):
 def sym_b(V, name):
     k = V.pick(name + '_k', ['valid', 'neg', 'bad', 'str', 'empty'] if V.thorough else ['valid', 'neg', 'bad', 'str'])
     if k == 'valid':
-        return {'x': V.int(name, 0, None), 'y': 'q'}
+        return {'x': V.int(name, 0, 3), 'y': 'q'}
     if k == 'neg':
-        return {'x': V.int(name + '_n', None, -1)}
+        return {'x': V.int(name + '_n', -3, -1)}
     if k == 'bad':
         return {'x': 'zz'}
     if k == 'str':
@@ -135,9 +135,9 @@ def later_input(V, tag=''):
     elif which == 'by':
         d['by'] = {'k': sym_b(V, tag + 'by')}
     elif which == 'u':
-        d['u'] = sym_b(V, tag + 'u') if V.bool(tag + 'u_obj') else V.int(tag + 'u_int')
+        d['u'] = sym_b(V, tag + 'u') if V.bool(tag + 'u_obj') else V.int(tag + 'u_int', -3, 3)
     elif which == 't':
-        d['t'] = [sym_b(V, tag + 't'), V.int(tag + 't_int')]
+        d['t'] = [sym_b(V, tag + 't'), V.int(tag + 't_int', -3, 3)]
     elif which == 'two':
         d['b'] = {'x': 3}
         d['kids'] = [sym_b(V, tag + 'k0')]
@@ -172,7 +172,7 @@ for _sp in ('string', 'future'):
     ob('defined-later/' + _sp, marks=['accept', 'reject'], budget=(150, 400),
        bounds="class A with fields Optional['B'], List['B'], Dict[str,'B'], Union[int,'B'], Optional[Tuple['B', int]] and B defined after A; "
               "spelling = %s; 0..1 earlier parse (of A on one of 4 inputs, or of B) then a parse of A on a solver-chosen input (which "
-              'field is used, valid / negative / non-numeric / convertible / empty nested values with unbounded solver ints); same outcome '
+              'field is used, valid / negative / non-numeric / convertible / empty nested values with solver ints in -3..3); same outcome '
               'as the direct declaration (B first), from the first call on' % ('string annotations' if _sp == 'string' else
                                                                               'postponed evaluation (from __future__ import annotations)'))(
         (lambda sp: lambda V: _defined_later(V, sp))(_sp))
@@ -227,7 +227,7 @@ class A@@(Schema):
 
 
 def mutual_input(V, tag=''):
-    w = lambda n: V.int(tag + n) if V.bool(tag + n + '_int') else V.pick(tag + n + '_s', ['5', 'x'])
+    w = lambda n: V.int(tag + n, -3, 3) if V.bool(tag + n + '_int') else V.pick(tag + n + '_s', ['5', 'x'])
     shape = V.pick(tag + 'shape', ['flat', 'b', 'b.a', 'b.peers', 'b.a.b'])
     if shape == 'flat':
         return {'v': w('v')}
@@ -242,8 +242,8 @@ def mutual_input(V, tag=''):
 
 @ob('mutual-recursion', marks=['accept', 'reject'], budget=(100, 400),
     bounds="A <-> B mutual recursion with a self-referencing list (Optional['B'], Optional['A'], List['B']) declared in either order; 0..1 "
-           'earlier parse of A or of B (solver-chosen), then a parse of A on a solver-chosen input of nesting depth <= 3 with unbounded '
-           'solver ints / "5" / "x" leaves: same outcome for both declaration orders and for a finite unrolling into distinct classes '
+           'earlier parse of A or of B (solver-chosen), then a parse of A on a solver-chosen input of nesting depth <= 3 with '
+           'solver ints in -3..3 / "5" / "x" leaves: same outcome for both declaration orders and for a finite unrolling into distinct classes '
            'written with direct references')
 def mutual_recursion(V):
     with V.notrace():
@@ -375,5 +375,101 @@ for _t in ('class', 'function', 'local'):
     ob('misc/' + _t, marks=[_t], budget=(150, 400),
        bounds="the same forward name in several constrained annotations ('Pos' = Field(le=10), 'Pos' = Field(le=5), List['Pos']), a "
               "decorated function with forward-referenced parameter / default / return types, and function-local classes (self reference "
-              'and a module-level name defined later, created twice) -- target %s; solver-chosen call order and inputs (unbounded ints / '
+              'and a module-level name defined later, created twice) -- target %s; solver-chosen call order and inputs (ints in -3..3 / '
               '"3" / "x"); same outcome as the direct declarations' % _t)((lambda t: lambda V: _misc(V, t))(_t))
+
+
+# ------------------------------------------------------------------ system: inheritance, local class -> module-level later class, nested in xor
+MORE_FWD = HEAD + '''
+from utype import types
+
+
+class Base@@(Schema):
+    b: Optional['Late@@'] = None
+    ks: List['Late@@'] = Field(default_factory=list)
+
+
+class Sub@@(Base@@):
+    extra: int = 0
+
+
+def make@@():
+    class Loc(Schema):
+        m: Optional['Late@@'] = None
+        u: Union[int, 'Late@@'] = 0
+    return Loc
+
+
+Loc@@ = make@@()
+
+
+class Host@@(Schema):
+    f: types.PositiveInt ^ List['Late@@'] = 1
+
+
+class Late@@(Schema):
+    x: int = Field(ge=0, default=0)
+'''
+MORE_DIRECT = HEAD + '''
+from utype import types
+
+
+class Late@@(Schema):
+    x: int = Field(ge=0, default=0)
+
+
+class Base@@(Schema):
+    b: Optional[Late@@] = None
+    ks: List[Late@@] = Field(default_factory=list)
+
+
+class Sub@@(Base@@):
+    extra: int = 0
+
+
+def make@@():
+    class Loc(Schema):
+        m: Optional[Late@@] = None
+        u: Union[int, Late@@] = 0
+    return Loc
+
+
+Loc@@ = make@@()
+
+
+class Host@@(Schema):
+    f: types.PositiveInt ^ List[Late@@] = 1
+'''
+
+
+def _more(V, target):
+    with V.notrace():
+        fwd, n1 = load(MORE_FWD, 'xf')
+        direct, n2 = load(MORE_DIRECT, 'xd')
+    try:
+        late = lambda name: {'x': num(V, name, -3, 3)}
+        if target == 'subclass-before-base':
+            cls = 'Sub'
+            if V.bool('base_first'):
+                outcome(getattr(fwd, 'Base%d' % n1), b={'x': 1})
+                outcome(getattr(direct, 'Base%d' % n2), b={'x': 1})
+            d = {'b': late('b')} if V.bool('via_b') else {'ks': [late('k')]}
+        elif target == 'local-to-module':
+            cls = 'Loc'
+            d = {'m': late('m')} if V.bool('via_m') else {'u': late('u')}
+        else:
+            cls = 'Host'
+            d = {'f': [late('f')]} if V.bool('as_list') else {'f': num(V, 'fi', -3, 3)}
+        r1, r2 = outcome(getattr(fwd, cls + str(n1)), **d), outcome(getattr(direct, cls + str(n2)), **d)
+        V.check(r1 == r2, 'forward:differs:' + target, lambda: '%s(**%r): forward %r ; direct %r' % (cls, d, r1, r2))
+        V.cover(target)
+    finally:
+        unload(fwd, direct)
+
+
+for _t in ('subclass-before-base', 'local-to-module', 'xor-of-list'):
+    ob('more/' + _t, marks=[_t], budget=(100, 400),
+       bounds="a subclass used before (or after) its base whose Optional['Late'] / List['Late'] references are still pending; a "
+              "function-local class naming a module-level class defined later (Optional / Union); a forward reference nested in "
+              "PositiveInt ^ List['Late'] -- target %s; inputs solver ints in -3..3 / \"3\" / \"x\"; same outcome as the direct "
+              'declarations' % _t)((lambda t: lambda V: _more(V, t))(_t))
